@@ -13,7 +13,8 @@ Notation WI := (WI c).
 Notation store_pre := (store_pre c).
 
 (* facts about local variables depend on the world only through its records, run counter and clock *)
-Definition weq (w w' : world) : Prop := w_recs w' = w_recs w /\ w_nrun w' = w_nrun w /\ w_now w' = w_now w.
+Definition weq (w w' : world) : Prop :=
+  w_recs w' = w_recs w /\ w_nrun w' = w_nrun w /\ w_now w' = w_now w /\ w_hist w' = w_hist w /\ w_noid w' = w_noid w.
 Definition stable (K : world -> Prop) : Prop := forall w w', weq w w' -> K w -> K w'.
 
 Lemma weq_refl w : weq w w. Proof. repeat split. Qed.
@@ -36,7 +37,7 @@ Lemma quiet_Inv (K : world -> Prop) s s' :
   stable K -> quiet_step s s' -> Inv s /\ K (o_w s) -> Inv s' /\ K (o_w s').
 Proof.
   intros HK (Hw & Hl & Ho & Hpr & Hp & (ts & Hts & Ht)) [(HW & Hn & Htr) HKs]. split; [|eapply HK; eauto].
-  destruct Hw as (E1 & E2 & E3). split; [|split].
+  destruct Hw as (E1 & E2 & E3 & E4 & E5). split; [|split].
   - eapply WI_frame; eauto.
   - rewrite Hp. exact Hn.
   - rewrite Ht. apply Forall_app. split; assumption.
@@ -47,7 +48,7 @@ Proof. repeat split; auto. exists []. split; [constructor|reflexivity]. Qed.
 
 Lemma quiet_trans s1 s2 s3 : quiet_step s1 s2 -> quiet_step s2 s3 -> quiet_step s1 s3.
 Proof.
-  intros ((A1 & A2 & A3) & B & C & C2 & D & (ts & Hts & E)) ((A1' & A2' & A3') & B' & C' & C2' & D' & (ts' & Hts' & E')).
+  intros ((A1 & A2 & A3 & A4 & A5) & B & C & C2 & D & (ts & Hts & E)) ((A1' & A2' & A3' & A4' & A5') & B' & C' & C2' & D' & (ts' & Hts' & E')).
   repeat split; try congruence.
   exists (ts' ++ ts). split; [apply Forall_app; split; assumption|]. rewrite E', E. now rewrite app_assoc.
 Qed.
@@ -550,7 +551,7 @@ Proof.
   eapply (t_seq _ _ _ (fun r s => Inv s /\ (K (o_w s) /\ w_now w = w_now (o_w s)) /\ forall x, r = Ok x -> x = lookup_run (o_w s) (r_run run))).
   { eapply t_pre; [|apply (p_lookup_t (fun w' => K w' /\ w_now w = w_now w') (r_run run))].
     - intros s (Hn & HI & HKs). auto.
-    - apply stable_and; [exact HK|]. intros w1 w2 (_ & _ & E) H. congruence. }
+    - apply stable_and; [exact HK|]. intros w1 w2 (_ & _ & E & _) H. congruence. }
   2:{ intros e s [HI _]. exact HI. }
   intros latest. destruct latest as [l|]; [|apply t_fail; intros s [HI _]; exact HI].
   apply t_if; intros Est; [apply t_ret; intros s [HI _]; exact HI|].
@@ -815,40 +816,60 @@ Lemma firstn_In_sub {A} (n : nat) (l : list A) (x : A) : In x (firstn n l) -> In
 Proof. revert l. induction n as [|n IH]; intros [|a l]; cbn; try tauto. intros [->|H]; [now left|right; apply IH, H]. Qed.
 
 (* ---------- outbox.go purgeOutbox ---------- *)
+Lemma ev_of_entry eid now o : ev_of (event_of_entry eid now o) o.
+Proof. repeat split. Qed.
+
+Lemma ev_of_route e o id r : ev_of e o -> o = route id r -> ev_of e (route 0%N r).
+Proof. intros H ->. exact H. Qed.
+
 Lemma do_send_WI (w : world) (o : oentry) :
-  WI w -> (o_topic o = TDelete -> del_ready (w_recs w) (o_run o)) -> WI (do_send w o).
+  WI w -> (o_topic o = TDelete -> del_ready (w_recs w) (o_run o)) -> entry_at (w_hist w) o -> WI (do_send w o).
 Proof.
-  intros [H1 H2 H3 H4 H5 H6] Hd. unfold do_send. constructor; cbn; try assumption.
+  intros [H1 H2 H3 H4 H5 H6 H7 H8 H9 H10] Hd (x & Hx & Ex & _). unfold do_send. constructor; cbn; try assumption.
   - intros e He Ht. apply in_app_or in He as [He|[<-|[]]]; [apply H4; assumption|]. cbn in Ht. apply Hd, Ht.
   - intros p idx e d Hin. destruct (H6 p idx e d Hin) as [A B]. split; [apply in_or_app; left; exact A|exact B].
+  - intros e He. apply in_app_or in He as [He|[<-|[]]]; [apply H9, He|].
+    exists x. split; [eapply nth_error_In, Hx|]. eapply ev_of_route; [apply ev_of_entry|exact Ex].
+  - intros k r Hk. destruct (H10 k r Hk) as [A|(e & He & Ee)]; [left; exact A|right]. exists e. split; [apply in_or_app; now left|exact Ee].
 Qed.
 
 Lemma del_outbox_WI (w : world) (id : N) :
-  WI w -> WI (set_outbox w (filter (fun o => negb (N.eqb (o_id o) id)) (w_outbox w))).
+  WI w -> (forall r, nth_error (w_hist w) (N.to_nat id - 1) = Some r -> published w r) ->
+  WI (set_outbox w (filter (fun o => negb (N.eqb (o_id o) id)) (w_outbox w))).
 Proof.
-  intros [H1 H2 H3 H4 H5 H6]. constructor; cbn; try assumption.
-  intros o Ho Ht. apply filter_In in Ho as [Ho _]. apply H5; assumption.
+  intros [H1 H2 H3 H4 H5 H6 H7 H8 H9 H10] Hp. constructor; cbn; try assumption.
+  - intros o Ho Ht. apply filter_In in Ho as [Ho _]. apply H5; assumption.
+  - intros o Ho. apply filter_In in Ho as [Ho _]. apply H8, Ho.
+  - intros k r Hk. destruct (H10 k r Hk) as [A|A]; [|right; exact A].
+    destruct (N.eq_dec (N.of_nat k + 1) id) as [E|E].
+    + right. apply Hp. rewrite <- E. replace (N.to_nat (N.of_nat k + 1) - 1)%nat with k by lia. exact Hk.
+    + left. apply filter_In. split; [exact A|]. cbn. apply Bool.negb_true_iff. now apply N.eqb_neq.
 Qed.
 
 Lemma p_send_t (K : world -> Prop) (o : oentry) :
   stable K ->
-  triple (fun s => Inv s /\ K (o_w s) /\ (o_topic o = TDelete -> del_ready (w_recs (o_w s)) (o_run o))) (p_send o)
-         (fun _ s => Inv s /\ K (o_w s)).
+  triple (fun s => Inv s /\ K (o_w s) /\ (o_topic o = TDelete -> del_ready (w_recs (o_w s)) (o_run o)) /\ entry_at (w_hist (o_w s)) o)
+         (p_send o)
+         (fun r s => Inv s /\ K (o_w s) /\ (forall x, r = Ok x -> exists e, In e (w_log (o_w s)) /\ ev_of e o)).
 Proof.
-  intros HK s ((HW & Hn & Htr) & HKs & Hd). unfold p_send.
+  intros HK s ((HW & Hn & Htr) & HKs & Hd & He). unfold p_send.
   match goal with |- context [prim ?k ?ctx ?T ?E ?X s] => destruct (prim_spec k ctx T E X s) as (d & s1 & _ & W & P & Tr & R) end.
   rewrite R. destruct (disp_ret_run d tt s1) as (rr & Er & _). rewrite Er. cbn.
-  split; [split; [|split]|].
+  split; [split; [|split]|split].
   - rewrite W. destruct (disp_effect d); [apply do_send_WI; assumption|assumption].
   - rewrite P. exact Hn.
   - destruct Tr as [F|F]; rewrite F; [|exact Htr]. apply toks_ok_cons; [reflexivity|exact Htr].
   - rewrite W. destruct (disp_effect d); [|exact HKs]. eapply HK; [|exact HKs]. unfold do_send. repeat split.
+  - intros x Hx. destruct d; cbn in Er; inversion Er; subst rr; try discriminate;
+      (rewrite W; cbn; eexists; split; [apply in_or_app; right; left; reflexivity|apply ev_of_entry]).
 Qed.
 
 Lemma p_del_outbox_t (K : world -> Prop) (id : N) :
-  stable K -> triple (fun s => Inv s /\ K (o_w s)) (p_del_outbox id) (fun _ s => Inv s /\ K (o_w s)).
+  stable K ->
+  triple (fun s => Inv s /\ K (o_w s) /\ forall r, nth_error (w_hist (o_w s)) (N.to_nat id - 1) = Some r -> published (o_w s) r)
+         (p_del_outbox id) (fun _ s => Inv s /\ K (o_w s)).
 Proof.
-  intros HK s ((HW & Hn & Htr) & HKs). unfold p_del_outbox.
+  intros HK s ((HW & Hn & Htr) & HKs & Hp). unfold p_del_outbox.
   match goal with |- context [prim ?k ?ctx ?T ?E ?X s] => destruct (prim_spec k ctx T E X s) as (d & s1 & _ & W & P & Tr & R) end.
   rewrite R. destruct (disp_ret_run d tt s1) as (rr & Er & _). rewrite Er. cbn.
   split; [split; [|split]|].
@@ -878,29 +899,50 @@ Proof. intros w. repeat split. Qed.
 Lemma quiet_m_release u inst : quiet (m_release u inst).
 Proof. unfold m_release. apply quiet_put_w_same. intros w. repeat split. Qed.
 
+Lemma t_quiet_KL {A} (m : M A) (K : world -> Prop) (L : list event -> Prop) :
+  quiet m -> stable K ->
+  triple (fun s => Inv s /\ K (o_w s) /\ L (w_log (o_w s))) m (fun _ s' => Inv s' /\ K (o_w s') /\ L (w_log (o_w s'))).
+Proof.
+  intros Hq HK s (HI & HKs & HL). specialize (Hq s).
+  destruct (quiet_Inv K s _ HK Hq (conj HI HKs)) as [HI' HK']. split; [exact HI'|split; [exact HK'|]].
+  destruct Hq as (_ & El & _). rewrite El. exact HL.
+Qed.
+
+Definition relay_ready (w : world) (o : oentry) : Prop :=
+  (o_topic o = TDelete -> del_ready (w_recs w) (o_run o)) /\ entry_at (w_hist w) o.
+
 Lemma relay_entries_t (l : list oentry) :
-  triple (fun s => Inv s /\ forall o, In o l -> o_topic o = TDelete -> del_ready (w_recs (o_w s)) (o_run o))
-         (relay_entries l) (fun _ s => Inv s).
+  triple (fun s => Inv s /\ forall o, In o l -> relay_ready (o_w s) o) (relay_entries l) (fun _ s => Inv s).
 Proof.
   induction l as [|o tl IH]; cbn [relay_entries]; [apply t_ret; intros s [HI _]; exact HI|].
-  set (K := fun w => forall o', In o' (o :: tl) -> o_topic o' = TDelete -> del_ready (w_recs w) (o_run o')).
+  set (K := fun w => forall o', In o' (o :: tl) -> relay_ready w o').
   assert (HK : stable K).
-  { intros w w' E H o' Hin Ht. eapply del_ready_weq; eauto. }
+  { intros w w' E H o' Hin. destruct (H o' Hin) as [A B]. destruct E as (E1 & _ & _ & E4 & _). split; [rewrite E1; exact A|rewrite E4; exact B]. }
   eapply (t_seq _ _ _ (fun _ s => Inv s /\ K (o_w s))).
   { apply (t_quiet _ K); [apply quiet_p_call, inert_id|exact HK]. }
   2:{ intros e s [HI _]. exact HI. }
   intros _.
-  eapply (t_seq _ _ _ (fun _ s => Inv s /\ K (o_w s))).
-  { apply t_catch. eapply t_pre; [|apply (p_send_t K o HK)]. intros s [HI HKs]. split; [exact HI|split; [exact HKs|]]. apply HKs. now left. }
+  eapply (t_seq _ _ _ (fun r s => Inv s /\ K (o_w s) /\ (forall x, r = Ok (Ok x) -> exists e, In e (w_log (o_w s)) /\ ev_of e o))).
+  { apply t_catch. eapply t_conseq; [|apply (p_send_t K o HK)|].
+    - intros s [HI HKs]. split; [exact HI|split; [exact HKs|]]. apply HKs. now left.
+    - intros r s (HI & HKs & H). split; [exact HI|split; [exact HKs|]]. intros x Hx. inversion Hx; subst. eapply H. reflexivity. }
   2:{ intros e s [HI _]. exact HI. }
-  intros r.
-  eapply (t_seq _ _ _ (fun _ s => Inv s /\ K (o_w s))).
-  { apply t_catch. apply (t_quiet _ K); [apply quiet_p_call, inert_id|exact HK]. }
+  intros r. destruct r as [u|e].
+  2:{ eapply (t_seq _ _ _ (fun _ s => Inv s)).
+      - apply t_catch. eapply t_pre; [|apply (t_inv_quiet _ (quiet_p_call _ _ _ _ _ inert_id))]. intros s [HI _]. exact HI.
+      - intros x. apply t_fail. auto.
+      - intros e' s HI. exact HI. }
+  set (L := fun lg : list event => exists e, In e lg /\ ev_of e o).
+  eapply (t_seq _ _ _ (fun _ s => Inv s /\ K (o_w s) /\ L (w_log (o_w s)))).
+  { apply t_catch. eapply t_pre; [|apply (t_quiet_KL _ K L (quiet_p_call _ _ _ _ _ inert_id) HK)].
+    intros s (HI & HKs & H). split; [exact HI|split; [exact HKs|]]. apply (H u). reflexivity. }
   2:{ intros e s [HI _]. exact HI. }
-  intros x. destruct r as [_|e]; [|apply t_fail; intros s [HI _]; exact HI].
-  destruct x as [_|e]; [|apply t_fail; intros s [HI _]; exact HI].
+  intros x. destruct x as [_|e]; [|apply t_fail; intros s [HI _]; exact HI].
   eapply (t_seq _ _ _ (fun _ s => Inv s /\ K (o_w s))).
-  { apply (p_del_outbox_t K (o_id o) HK). }
+  { eapply t_pre; [|apply (p_del_outbox_t K (o_id o) HK)].
+    intros s (HI & HKs & (e & He & Ee)). split; [exact HI|split; [exact HKs|]].
+    destruct (HKs o (or_introl eq_refl)) as [_ (r0 & Hr0 & Er0 & _)].
+    intros r Hr. rewrite Hr0 in Hr. inversion Hr; subst r. exists e. split; [exact He|]. eapply ev_of_route; eauto. }
   2:{ intros e s [HI _]. exact HI. }
   intros _. eapply t_pre; [|exact IH]. intros s [HI HKs]. split; [exact HI|]. intros o' Hin. apply HKs. now right.
 Qed.
@@ -908,7 +950,7 @@ Qed.
 (* ---------- trigger.go, callback.go, the controller API ---------- *)
 Lemma set_nrun_WI (w : world) : WI w -> WI (set_nrun w (w_nrun w + 1)%N).
 Proof.
-  intros [H1 H2 H3 H4 H5 H6]. constructor; cbn; try assumption.
+  intros [H1 H2 H3 H4 H5 H6 H7 H8 H9 H10]. constructor; cbn; try assumption.
   intros r Hr. specialize (H2 r Hr). lia.
 Qed.
 
@@ -1270,8 +1312,10 @@ Proof.
       - apply guarded_t.
         eapply t_seq; [apply p_list_outbox_t| |intros e s [HI _]; apply op_post_err, HI].
         intros l. eapply (t_seq _ _ _ (fun _ s => Inv s)).
-        + eapply t_pre; [|apply relay_entries_t]. intros s [HI Hl]. split; [exact HI|]. intros o Ho Ht.
-          destruct HI as (HW & _). apply (wi_del_out c _ HW o); [apply (Hl l eq_refl o Ho)|exact Ht].
+        + eapply t_pre; [|apply relay_entries_t]. intros s [HI Hl]. split; [exact HI|]. intros o Ho.
+          destruct HI as (HW & _). pose proof (Hl l eq_refl o Ho) as Hin. split.
+          * intros Ht. apply (wi_del_out c _ HW o Hin Ht).
+          * apply (wi_out c _ HW o Hin).
         + intros _. eapply (t_seq _ _ _ (fun _ s => Inv s)); [apply (t_inv_quiet _ (quiet_m_release _ _))| |intros e s HI; apply op_post_err, HI].
           intros _. apply t_ret. intros s HI. apply op_post_nolag; [exact HI|exact I].
         + intros e s HI. apply op_post_err, HI.
@@ -1366,9 +1410,10 @@ Qed.
 
 Lemma WI_procs (w w' : world) :
   w_recs w' = w_recs w -> w_nrun w' = w_nrun w -> w_now w' = w_now w -> w_log w' = w_log w -> w_outbox w' = w_outbox w ->
-  (forall x, In x (w_procs w') -> In x (w_procs w)) -> WI w -> WI w'.
+  (forall x, In x (w_procs w') -> In x (w_procs w)) -> w_hist w' = w_hist w -> w_noid w' = w_noid w -> WI w -> WI w'.
 Proof.
-  intros E1 E2 E3 E4 E5 Hsub [H1 H2 H3 H4 H5 H6]. constructor; rewrite ?E1, ?E2, ?E3, ?E4, ?E5; try assumption.
+  intros E1 E2 E3 E4 E5 Hsub E7 E8 [H1 H2 H3 H4 H5 H6 H7 H8 H9 H10].
+  constructor; unfold published in *; rewrite ?E1, ?E2, ?E3, ?E4, ?E5, ?E7, ?E8; try assumption.
   intros p idx e d Hin. apply (H6 p idx e d), Hsub, Hin.
 Qed.
 
@@ -1381,7 +1426,7 @@ Qed.
 Lemma put_pstate_WI (w : world) (inst : Z) (u : eunit) (ps : pstate) :
   WI w -> (forall idx e d, ps = PLag idx e d -> ev_ok w u e) -> WI (put_pstate w (inst, u) ps).
 Proof.
-  intros [H1 H2 H3 H4 H5 H6] Hps. unfold put_pstate. constructor; cbn; try assumption.
+  intros [H1 H2 H3 H4 H5 H6 H7 H8 H9 H10] Hps. unfold put_pstate. constructor; cbn; try assumption.
   intros p idx e d [Hx|Hx].
   - inversion Hx; subst. cbn. apply (Hps idx e d eq_refl).
   - apply filter_In in Hx as [Hx _]. apply (H6 p idx e d Hx).
@@ -1407,7 +1452,7 @@ Proof.
     destruct ui; [|exact B]. clear -B. induction B as [|x l Hx Hl IH]; cbn; [constructor|].
     constructor; [|exact IH]. destruct x; try exact Hx; reflexivity.
   - (* clock advance *)
-    split; [|constructor]. destruct HW as [H1 H2 H3 H4 H5 H6]. constructor; cbn; try assumption.
+    split; [|constructor]. destruct HW as [H1 H2 H3 H4 H5 H6 H7 H8 H9 H10]. constructor; cbn; try assumption.
     intros r Hr. destruct (H3 r Hr) as (A & B & C & D). repeat split; try assumption. lia.
   - (* a process step *)
     set (ps := get_pstate w (inst, u)).
@@ -1430,13 +1475,18 @@ Proof.
   - split; [|constructor]. eapply WI_frame; try exact HW; reflexivity.
   - (* a duplicated delivery *)
     destruct (nth_error (w_log w) idx) as [e|] eqn:E; cbn [fst snd]; (split; [|constructor]); [|exact HW].
-    apply nth_error_In in E. destruct HW as [H1 H2 H3 H4 H5 H6]. constructor; cbn; try assumption.
+    apply nth_error_In in E. destruct HW as [H1 H2 H3 H4 H5 H6 H7 H8 H9 H10]. constructor; cbn; try assumption.
     + intros e' He' Ht. apply in_app_or in He' as [He'|[<-|[]]]; [apply H4; assumption|]. cbn in *. apply (H4 e E Ht).
     + intros p i' e' d' Hin. destruct (H6 p i' e' d' Hin) as [A B]. split; [apply in_or_app; left; exact A|exact B].
+    + intros e' He'. apply in_app_or in He' as [He'|[<-|[]]]; [apply H9, He'|]. destruct (H9 e E) as (r & Hr & Er). exists r. split; [exact Hr|exact Er].
+    + intros k r Hk. destruct (H10 k r Hk) as [A|(e' & He' & Ee)]; [left; exact A|right]. exists e'. split; [apply in_or_app; now left|exact Ee].
 Qed.
 
 Lemma w0_WI : WI w0.
-Proof. constructor; cbn; try constructor; intros; contradiction. Qed.
+Proof.
+  constructor; cbn; try constructor; try (intros; contradiction); try reflexivity.
+  destruct k; discriminate.
+Qed.
 
 Lemma run_ops_from_ok (ops : list eop) :
   Forall op_ok ops -> forall n w, WI w -> WI (fst (run_ops_from c n w ops)) /\ toks_ok c (snd (run_ops_from c n w ops)).
